@@ -65,6 +65,22 @@ NEEDS = {
  "C02d-crlf-normalised-in-input": ("C02", ["C02"], "CR LF inside a single-quoted argument"),
  "C03d-current-sorts-ast-revisions": ("C03", ["C03"], "a module with two or more revision statements not written newest first: registering the module sorts the AST field in place"),
  "C08d-deviation-dedup-by-adjacency": ("C08", ["C08"], "a deviating module with a revision and another loaded module whose name extends its name with '-', '.' or a digit: its deviations are applied twice"),
+ "C04d-augment-nondir-target-not-skipped": ("C04", ["C04", "C07"], "an augment whose path names a leaf or leaf-list before the implied cases exist, in a module with no other skipped augment: dropped without error"),
+ "C05d-current-first-revision": ("C05", ["C05", "C13"], "a module listing its revisions oldest first, loaded next to the older revision: the second load is rejected, imports bind to whichever came first"),
+ "C06d-submodule-prefix-owner-imports-first": ("C06", ["C06", "C09", "C11"], "a grouping in a submodule with a leaf whose type prefix the owning module binds to another module"),
+ "C07d-namespace-outermost-override": ("C07", ["C07", "C12"], "an augment into a subtree that another module's augment grafted (three modules): the outermost override wins"),
+ "C09d-typedefs-only-top-level-eager": ("C09", ["C09"], "an unused typedef in an inner scope with an unknown or cyclic base: never resolved, never reported"),
+ "C10d-decimal-scale-after-parseint": ("C10", ["C10", "C15"], "a decimal64 bound written with fewer fraction digits than the type whose scaled value leaves the 64-bit range and wraps into place"),
+ "C11d-typedef-identityref-base-owner-context": ("C11", ["C11"], "an identityref typedef in a submodule whose base prefix means something else (or nothing) in the owning module"),
+ "C12d-uses-pins-namespace-in-grouping": ("C12", ["C12", "C06"], "a grouping that uses another grouping, defined in one module and used from another: the inner nodes keep the defining module's namespace"),
+ "C13d-current-first-revision": ("C13", ["C13"], "a module header with several revisions not written newest first"),
+ "C14d-value-int64-cast-wraps": ("C14", ["C14"], "an enum value or bit position close to 2^64 that wraps back into the legal window"),
+ "C15d-equal-struct-compare-negative-zero": ("C15", ["C15"], "negative zero against zero at equal fraction digits"),
+ "C16d-concat-token-last-piece": ("C16", ["C16"], "a syntax error whose offending token is a quoted string written as several pieces joined by + on several lines"),
+ "C17d-implied-case-parent-choice-module": ("C17", ["C17"], "a lookup starting at the implied case of a shorthand member that another module contributed to the choice, with a prefix the two modules bind differently"),
+ "C18d-closure-only-for-grown": ("C18", ["C18", "C11"], "identity chain of three levels over three modules, the last loaded after a Process"),
+ "C19d-minmax-writes-builtin-range": ("C19", ["C19"], "min/max keyword restriction on a built-in range resolved in two goroutines: write into the package-level range array"),
+ "C20d-trimsuffix-by-content": ("C20", ["C20"], "a chunk that ends in the middle of a line with bytes equal to the prefix"),
  "C20b-empty-write-clears-partial": ("C20", ["C20"], "zero-length Write in the middle of a line clears the mid-line flag: the next Write gets a prefix inside the line"),
  "C20-early-out-continued-line": ("C20", ["C20"], "short write of 1..len(prefix) bytes on a Write that continues a partial line returns 0 although caller bytes were written"),
 }
